@@ -1427,7 +1427,9 @@ fn has_non_tuple_variant(program: &Program, type_id: usize) -> bool {
             | Type::Reference
             | Type::Callable { .. }
             | Type::Process { .. }
-            | Type::Resource(_),
+            | Type::Resource(_)
+            // a type variable stands for any type, also one without fields
+            | Type::Variable(_),
         ) => true,
         _ => false,
     }
